@@ -224,6 +224,30 @@ CLAIMS = {
         "of the two integrator orders.",
         COMMON_NOTE,
         "DESIGN.md §3 C05"),
+    "C19": (
+        "Coq proof (control skeleton of expm_krylov: exits well defined, breakdown at the first negligible direction, full subspace otherwise; isometries and unit phases preserve the norm over any ring with involution) + operator-call-count correspondence + scipy-expm search over all code paths",
+        "Machine-checked proof that every path through the Lanczos loop returns with a subspace dimension between 1 and m_max, that a "
+        "breakdown exit happens at the first iteration whose new direction is negligible, that without breakdown and convergence the "
+        "full subspace is used; and that the two projections and the phase multiplication of the result formula V_k U e^{-i dt Lambda} "
+        "U^T e_1 ||v|| preserve the norm whenever V_k has orthonormal columns and U is orthogonal. Tie: the number of operator "
+        "applications of the real expm_krylov on invariant-subspace starts and on runs that can neither break down nor converge vs "
+        "the dimension the skeleton predicts. PARTIAL (searched): floating-point Lanczos orthogonality, LAPACK, and the accuracy "
+        "bound — expm_krylov / expm_arnoldi are compared with scipy.linalg.expm for Hermitian / non-Hermitian operators, deficient "
+        "starts, +-dt, sizes around the dense (128) and compiled (4096) switches; norm preservation on every path.",
+        COMMON_NOTE,
+        "DESIGN.md §3 C19"),
+    "C17": (
+        "Coq proof over Coquelicot's C (the four probe states span the 2x2 matrices with explicit coefficients and are linearly independent) + live-frame correspondence + held-out tomography search against dense evolution",
+        "Machine-checked proof that |0><0|, |1><1|, |+><+|, |y+><y+| span the 2x2 complex matrices (explicit expansion of an arbitrary "
+        "matrix) and are linearly independent, i.e. the prepare/measure set is informationally complete and expansions are unique — "
+        "the fact that makes the 16 basis maps a basis of the Choi matrices and the dual-frame contraction exact, by linearity in each "
+        "slot, for preparations and interventions that were never probed. Ties: live probe states vs the model constants, the model's "
+        "coefficients on random matrices with the live states, the live dual frame reproducing random 4x4 matrices, Choi index order. "
+        "PARTIAL (searched): pinv, sequence bookkeeping, weighted aggregation and the simulated segments — tomography.run + "
+        "predict_final_state on held-out preparations and CPTP maps vs the partial trace of the dense evolution (L=2,3, one and two "
+        "segments, TJM and MCWF).",
+        COMMON_NOTE + "Axioms: standard-library real-number axioms.",
+        "DESIGN.md §3 C17"),
 }
 
 NOT_YET = "check not built yet in this round (planned in DESIGN.md §3); no claim is made"
